@@ -36,6 +36,7 @@ pub struct Swarm {
     pub w_deleverage: u32,
     pub w_make_unhealthy: u32,
     pub w_oracle_fault: u32,
+    pub w_account_close: u32,
     pub fault_oracle_skip: u32, // per-mille: publisher skips a bank
     pub fault_cpi_fail: u32,    // per-mille: inject CPI failure in a tx
     pub fault_delay: u32,       // per-mille: deliver later
@@ -88,6 +89,7 @@ impl Swarm {
             w_deleverage: 0,
             w_make_unhealthy: r(0, 3),
             w_oracle_fault: 0,
+            w_account_close: r(0, 3),
             fault_oracle_skip: if faults { r(0, 150) } else { 0 },
             fault_cpi_fail: if faults { r(0, 40) } else { 0 },
             fault_delay: if faults { r(0, 100) } else { 0 },
@@ -292,6 +294,46 @@ pub fn act_close_balance(sim: &Sim, ctx: &mut Ctx) -> Option<Tx> {
         "user",
         ix::close_balance(ctx.world.groups[gi].key, ma, u.authority, bal.bank_pk),
     ))
+}
+
+/// Close an account that looks closable (every slot below one share), preferring ones that still
+/// hold sub-unit remainders; the closed account is replaced by a fresh one so the user keeps playing.
+pub fn act_account_close(sim: &mut Sim, ctx: &mut Ctx) -> Option<Tx> {
+    let mut cands: Vec<(usize, usize, Pubkey, bool)> = Vec::new();
+    for (ui, u) in ctx.world.users.iter().enumerate() {
+        for (gi, ma) in &u.maccounts {
+            let Some(a) = model::account_of(&sim.store, ma) else { continue };
+            let bals = active_balances(&a);
+            let closable = bals.iter().all(|b| i80(b.asset_shares) < I80F48::ONE && i80(b.liability_shares) < I80F48::ONE);
+            let has_remainder = bals.iter().any(|b| i80(b.asset_shares) > I80F48::ZERO || i80(b.liability_shares) > I80F48::ZERO);
+            if closable {
+                cands.push((ui, *gi, *ma, has_remainder));
+            }
+        }
+    }
+    if cands.is_empty() {
+        return None;
+    }
+    let with_rem: Vec<_> = cands.iter().filter(|c| c.3).cloned().collect();
+    let (ui, gi, ma, _) = if !with_rem.is_empty() && ctx.rng.chance(4, 5) { *ctx.rng.pick(&with_rem) } else { *ctx.rng.pick(&cands) };
+    let u = ctx.world.users[ui].clone();
+    let out = sim.apply(Event::Tx(Tx::one("user", ix::account_close(ma, u.authority, ctx.world.payer))));
+    if out.map(|o| o.ok()).unwrap_or(false) {
+        ctx.world.users[ui].maccounts.retain(|(_, m)| *m != ma);
+        let new = ctx.rng.pubkey();
+        let g = ctx.world.groups[gi].key;
+        let mut t = ix::account_initialize(g, new, u.authority, ctx.world.payer);
+        for m in t.accounts.iter_mut() {
+            if m.pubkey == new {
+                m.is_signer = true;
+            }
+        }
+        let o2 = sim.apply(Event::Tx(Tx::one("user", t)));
+        if o2.map(|o| o.ok()).unwrap_or(false) {
+            ctx.world.users[ui].maccounts.push((gi, new));
+        }
+    }
+    None
 }
 
 pub fn act_accrue(_sim: &Sim, ctx: &mut Ctx) -> Option<Tx> {
@@ -946,6 +988,7 @@ pub fn step_mkt(sim: &mut Sim, ctx: &mut Ctx) {
         s.w_deleverage,
         s.w_make_unhealthy,
         s.w_oracle_fault,
+        s.w_account_close,
     ];
     let choice = ctx.rng.pick_weighted(&weights);
     let tx: Option<Tx> = match choice {
@@ -1011,7 +1054,8 @@ pub fn step_mkt(sim: &mut Sim, ctx: &mut Ctx) {
             crate::actors_tx::act_make_unhealthy(sim, ctx);
             None
         }
-        _ => crate::actors_ora::act_oracle_fault(sim, ctx),
+        21 => crate::actors_ora::act_oracle_fault(sim, ctx),
+        _ => act_account_close(sim, ctx),
     };
     if sim.violated() && sim.stop_on_violation {
         return;
